@@ -1,4 +1,6 @@
-"""C10 helpers: parameter expression trees, sympy builders, reference evaluator, program specs.
+"""C10 — symbolic parameters behave exactly like the values they stand for."""
+
+_TREE_DOC = """Parameter expression trees, sympy builders, reference evaluator, program specs.
 
 A *tree* is plain JSON:
     number                      numeric constant
@@ -126,10 +128,6 @@ def tree_eval(t, free, meas, oracle=None):
                         oracle.append((FN_IDS[name], (x,), y))
                     return y
                 return _bc1(f, args[0])
-            la = [isinstance(a, list) for a in args]
-            if any(la) and not all(la):
-                raise ShapeError()
-
             def f2(x, y):
                 z = _f2(name, x, y)
                 if oracle is not None:
@@ -187,6 +185,33 @@ def subst(t, free, meas):
     if t[0] == "arrc":
         return t
     return [t[0]] + [subst(x, free, meas) if isinstance(x, list) else x for x in t[1:]]
+
+
+def static_shape(t):
+    """Shape known when the expression is built: 'sc', ('ar', n) or None (construction raises ValueError)."""
+    if not isinstance(t, list):
+        return "sc"
+    k = t[0]
+    if k == "arrc":
+        return ("ar", len(t[1]))
+    if k in ("free", "meas"):
+        return "sc"
+    if k in ("neg", "pow"):
+        return static_shape(t[1])
+    if k == "fn" and len(t) == 3:
+        return static_shape(t[2])
+    if k == "arr":
+        return ("ar", len(t[1])) if all(static_shape(x) == "sc" for x in t[1]) else None
+    a, b = (static_shape(t[1]), static_shape(t[2])) if k != "fn" else (static_shape(t[2]), static_shape(t[3]))
+    if a is None or b is None:
+        return None
+    if k == "fn":
+        return a if a == b else None
+    if a == "sc":
+        return b
+    if b == "sc":
+        return a
+    return a if a == b else None
 
 
 def depth(t):
@@ -352,7 +377,7 @@ def run_spec(spec, symbolic=True, seed=1234):
         if spec.get("precompile"):
             progs = [p.compile(compiler=spec["precompile"], **copts) for p in progs]
         res = None
-        if spec.get("as_list") and len(progs) > 1:
+        if spec.get("as_list") and len(progs) > 1 and all(set(args) <= set(p.free_params) for p in progs):
             res = eng.run(progs, args=args, compile_options=dict(copts))
         else:
             for p in progs:
@@ -376,3 +401,743 @@ def same_result(a, b, tol=1e-7):
     if a["error"] or b["error"]:
         return a["error"] == b["error"]
     return all(x.shape == y.shape and np.allclose(x, y, atol=tol, rtol=0) for x, y in zip(a["state"], b["state"]))
+
+
+# ========================================================================================
+# check module
+
+from vlib import coq  # noqa: E402
+
+PROP = "C10"
+LEVEL = "proof"
+COQ_TARGETS = ["C10/Model.vo", "C10/Proofs.vo", "C10/FloatInst.vo"]
+COQ_DIRS = ["C10"]
+PROPERTIES_FILE = "Properties/C10.v"
+ALLOWED_AXIOMS = set()
+RULE = ("expression cases: random trees of depth 1-5 over constants, free atoms a-d, measured atoms of modes 0-4, "
+        "neg/add/mul/div/pow, 12 elementary functions, atan2 and array nodes, with a binding/default/measured-store "
+        "environment (error stream: unbound or unmeasured atoms, arrays of different length); non-trivial = contains "
+        ">= 1 measured and >= 1 free atom, or an unbound/unmeasured atom.  Program cases: random Gaussian circuits "
+        "with symbolic parameters, post-selected measurements, re-preparation and re-measurement, 1-3 segments, "
+        "optimisation / pre-compilation flags; non-trivial = uses a measured atom after a re-measurement, or several "
+        "segments, or an expected ParameterError")
+TRUSTED_BASE = [
+    "Coq 8.16.1 kernel; vm_compute for evaluating the model on generated cases (PrimFloat primitives in the execution-only file coq/C10/FloatInst.v)",
+    "hand-written models coq/C10/Model.v (par_evaluate, par_regref_deps, _eval_evalf, decomposition table) and coq/C10/Engine.v "
+    "(Measurement.apply store, BaseEngine._run forwarding, bind_params, the sympy symbol cache as a global table), tied to /repo by the correspondence on generated inputs",
+    "harness tools/props/c10.py: generators, tree -> sympy builder, reference evaluator on Python floats, numpy's elementary functions used as the function table of the model",
+    "sympy (Symbol cache, lambdify) and numpy are library code whose effects are observed, not verified",
+    "gaussian backend used as the observer of 'behaves like the substituted circuit' (means and covariance compared to 1e-7)",
+]
+ASSUMPTIONS = [
+    "scalars are abstract in the theorems (any interpretation of + * / - and of the function table); floating-point rounding is outside the theorems and enters only through the 1e-8 tolerance of the correspondence",
+    "array parameters are one-dimensional",
+    "measurement outcomes are fixed by post-selection in generated programs so that the substituted circuit is known in advance",
+]
+MANIFEST_TEXT = ("C10: substitution commutes with evaluation, ParameterError iff an atom is unbound/unmeasured, dependency "
+                 "extraction exact, latest-outcome invariant of the measured store (full for one program; refuted for the "
+                 "engine's segment forwarding and for symbols shared through the sympy cache, both recorded findings)")
+
+NAMES = ["a", "b", "c", "d"]
+NAME_IDS = {n: i for i, n in enumerate(NAMES)}
+NMODES = 5
+MISS = float.fromhex("0x1p+1000")
+DY = [0.0, 0.25, -0.25, 0.5, -0.5, 0.75, 1.0, -1.0, 0.125, 1.5, -2.0, 2.0, 3.0]
+
+
+# ---------------------------------------------------------------------------------------
+# generators
+
+def gen_const(rng, exact):
+    if exact or rng.random() < 0.5:
+        return rng.choice(DY)
+    return round(rng.uniform(-2, 2), 3)
+
+
+def gen_tree(rng, d, pool, exact=False, arr=False):
+    """pool: list of atoms (["free", n] / ["meas", k]) to draw leaves from."""
+    if d <= 0:
+        if pool and rng.random() < 0.6:
+            return list(rng.choice(pool))
+        if arr and rng.random() < 0.3:
+            return ["arrc", [gen_const(rng, exact) for _ in range(arr)]]
+        return gen_const(rng, exact)
+    k = rng.choice(["neg", "add", "add", "add", "mul", "mul", "mul", "div", "pow", "fn1", "fn1", "fn2"] + (["arr", "arr"] if arr else []))
+    sub = lambda dd=None: gen_tree(rng, rng.randint(0, d - 1) if dd is None else dd, pool, exact, arr)
+    if k == "neg":
+        return ["neg", sub(d - 1)]
+    if k in ("add", "mul"):
+        a, b = sub(d - 1), sub()
+        return [k, a, b] if rng.random() < 0.5 else [k, b, a]
+    if k == "div":
+        return ["div", sub(d - 1), ["add", 1.0, ["pow", sub(), 2]]] if rng.random() < 0.7 else ["div", sub(d - 1), rng.choice([2.0, -4.0, 0.5, 3.0])]
+    if k == "pow":
+        return ["pow", sub(d - 1), rng.choice([2, 2, 3, 0, 1])]
+    if k == "fn1":
+        f = rng.choice(["sin", "cos", "exp", "tanh", "cosh", "sinh", "atan", "asinh", "Abs", "sign", "sqrt"])
+        if f == "sqrt":
+            return ["fn", "sqrt", ["add", 1.0, ["pow", sub(d - 1), 2]]]
+        if f in ("Abs", "sign"):
+            leaf = gen_tree(rng, 0, pool, exact, arr)
+            return ["fn", f, leaf if rng.random() < 0.5 else ["mul", rng.choice([2.0, -0.5, 3.0]), leaf]]
+        return ["fn", f, sub(d - 1)]
+    if k == "fn2":
+        return ["fn", "atan2", sub(d - 1), ["add", 1.0, ["pow", sub(), 2]]]
+    # arr: elements are scalar expressions
+    return ["arr", [gen_tree(rng, rng.randint(0, max(0, d - 1)), pool, exact, False) for _ in range(arr)]]
+
+
+def gen_env(rng, tree, err_rate=0.2, exact=False, arr=0):
+    """free: name -> [val, default] (None = unset); meas: k -> list or None."""
+    free, meas = {}, {}
+    bad = rng.random() < err_rate
+    ats = sorted(set(atoms(tree)), key=repr)
+    victims = set()
+    if bad and ats:
+        victims = set(rng.sample(ats, rng.randint(1, min(2, len(ats)))))
+    for kind, a in ats:
+        if kind == "free":
+            if (kind, a) in victims:
+                free[a] = [None, None]
+            else:
+                v = gen_const(rng, exact)
+                if arr and rng.random() < 0.2:
+                    v = [gen_const(rng, exact) for _ in range(arr)]
+                r = rng.random()
+                free[a] = [v, None] if r < 0.5 else ([None, v] if r < 0.8 else [v, gen_const(rng, exact)])
+        else:
+            if (kind, a) in victims:
+                meas[a] = None
+            else:
+                meas[a] = [gen_const(rng, exact)] if (not arr or rng.random() < 0.85) else [gen_const(rng, exact) for _ in range(arr)]
+    # spectators: extra bound things that must not matter
+    if rng.random() < 0.3:
+        free.setdefault(rng.choice(NAMES), [gen_const(rng, exact), None])
+    if rng.random() < 0.3:
+        meas.setdefault(rng.randrange(NMODES), [gen_const(rng, exact)])
+    return free, meas
+
+
+def free_lookup(free):
+    out = {}
+    for n, (v, d) in free.items():
+        out[n] = v if v is not None else d
+    return out
+
+
+def ref_eval(tree, free, meas, oracle=None):
+    """('ok', value) | ('ParameterError',) | ('ValueError',)"""
+    try:
+        return ("ok", tree_eval(tree, free_lookup(free), {int(k): v for k, v in meas.items()}, oracle))
+    except RefParamError:
+        return ("ParameterError",)
+    except ShapeError:
+        return ("ValueError",)
+
+
+def _flat(v):
+    return v if isinstance(v, list) else [v]
+
+
+def well_scaled(tree, free, meas):
+    r = ref_eval(tree, free, meas)
+    if r[0] != "ok":
+        return True
+    try:
+        return all(math.isfinite(x) and abs(x) < 1e4 for x in _flat(r[1]))
+    except TypeError:
+        return False
+
+
+def gen_expr_case(rng, malformed=False):
+    """Arrays enter either as array nodes / constants of the expression (with scalar atom values) or as
+    array-valued bindings / multi-element measured values (in an expression without array nodes): the
+    implementation gives the two a different meaning when mixed (an object array of expressions each
+    evaluated on arrays is a nested array), which nothing in the library relies on."""
+    for _ in range(50):
+        d = rng.randint(1, 5)
+        arr = rng.choice([0, 0, 0, 2, 3])
+        arr_values = arr and not malformed and rng.random() < 0.3
+        pool = [["free", n] for n in rng.sample(NAMES, rng.randint(1, 3))] + [["meas", k] for k in rng.sample(range(NMODES), rng.randint(0, 3))]
+        exact = rng.random() < 0.4
+        tree = gen_tree(rng, d, pool, exact, 0 if arr_values else arr)
+        if malformed and arr:
+            # arrays of different length somewhere (detected when the expression is built)
+            if not has_array(tree):
+                tree = ["add", tree, ["arrc", [0.5] * arr]]
+            tree = [rng.choice(["add", "mul"]), tree, ["arrc", [1.0] * (arr + 1)]] if rng.random() < 0.5 else ["fn", "atan2", tree, ["arrc", [1.0] * (arr + 1)]]
+        if (static_shape(tree) is None) != bool(malformed and arr):
+            continue
+        free, meas = gen_env(rng, tree, 0.25, exact, arr if arr_values else 0)
+        oracle = []
+        if not well_scaled(tree, free, meas):
+            continue
+        # intermediate blow-ups make float comparison meaningless: bound every function argument too
+        ref_eval(tree, free, meas, oracle)
+        if any(not all(math.isfinite(x) and abs(x) < 1e4 for x in (list(o[1]) + [o[2]])) for o in oracle):
+            continue
+        return {"tree": tree, "free": free, "meas": {str(k): v for k, v in meas.items()}}
+    return {"tree": 1.0, "free": {}, "meas": {}}
+
+
+# ---------------------------------------------------------------------------------------
+# implementation driver for expression cases
+
+def _np_val(v):
+    return np.array([float(x) for x in v]) if isinstance(v, list) else float(v)
+
+
+def impl_atoms(p):
+    out = set()
+    if sfpar.is_object_array(p):
+        for k in p:
+            out |= impl_atoms(k)
+    elif isinstance(p, sfpar.sympy.Basic):
+        for k in p.atoms(sfpar.MeasuredParameter):
+            out.add(("meas", k.regref.ind))
+        for k in p.atoms(sfpar.FreeParameter):
+            out.add(("free", k.name))
+    return out
+
+
+def impl_expr_case(case, tree=None):
+    """Build the expression in a fresh Program with the case's environment and evaluate it.
+    Returns dict(outcome=('ok', v) | (errkind,), deps=[...], op_deps=[...], atoms=set)."""
+    tree = case["tree"] if tree is None else tree
+    prog = sf.Program(NMODES)
+    names = set(case["free"]) | {a for k, a in atoms(tree) if k == "free"}
+    for n in sorted(names):
+        prog.params(n)
+    for n, (v, d) in case["free"].items():
+        if v is not None:
+            prog.bind_params({n: _np_val(v)})
+        if d is not None:
+            prog.params(n).default = _np_val(d)
+    for k, v in case["meas"].items():
+        if v is not None:
+            prog.reg_refs[int(k)].val = np.array([float(x) for x in v])
+    out = {"deps": None, "op_deps": None, "atoms": None}
+    try:
+        e = build_expr(tree, prog.params, lambda k: prog.register[k].par)
+    except ValueError:
+        out["outcome"] = ("ValueError",)
+        return out
+    except Exception as ex:
+        out["outcome"] = ("build:" + type(ex).__name__,)
+        return out
+    out["deps"] = sorted(r.ind for r in sfpar.par_regref_deps(e))
+    out["op_deps"] = sorted(r.ind for r in ops.Operation([0.5, e]).measurement_deps)
+    out["atoms"] = impl_atoms(e)
+    try:
+        v = sfpar.par_evaluate(e)
+        out["outcome"] = ("ok", to_plain(v))
+        v2 = sfpar.par_evaluate([e, 1.0])
+        out["seq_ok"] = close(to_plain(v2[0]), out["outcome"][1]) and v2[1] == 1.0
+    except sfpar.ParameterError:
+        out["outcome"] = ("ParameterError",)
+    except ValueError:
+        out["outcome"] = ("ValueError",)
+    except Exception as ex:
+        out["outcome"] = (type(ex).__name__,)
+    return out
+
+
+# ---------------------------------------------------------------------------------------
+# Coq encodings
+
+def enc_value(v):
+    if isinstance(v, list):
+        return "(V %s)" % coq.coq_list(v, coq.coq_float)
+    return "(S %s)" % coq.coq_float(v)
+
+
+def enc_expr(t):
+    if isinstance(t, (int, float)):
+        return "(Const (S %s))" % coq.coq_float(t)
+    k = t[0]
+    if k == "arrc":
+        return "(Const (V %s))" % coq.coq_list(t[1], coq.coq_float)
+    if k == "free":
+        return "(Free %d)" % NAME_IDS[t[1]]
+    if k == "meas":
+        return "(Meas %d)" % t[1]
+    if k == "neg":
+        return "(Neg %s)" % enc_expr(t[1])
+    if k in ("add", "mul", "div"):
+        return "(%s %s %s)" % (k.capitalize(), enc_expr(t[1]), enc_expr(t[2]))
+    if k == "pow":
+        return "(Pow %s %d)" % (enc_expr(t[1]), t[2])
+    if k == "fn":
+        if len(t) == 3:
+            return "(Fn1 %d %s)" % (FN_IDS[t[1]], enc_expr(t[2]))
+        return "(Fn2 %d %s %s)" % (FN_IDS[t[1]], enc_expr(t[2]), enc_expr(t[3]))
+    if k == "arr":
+        return "(Arr %s)" % coq.coq_list(t[1], enc_expr)
+    raise ValueError(t)
+
+
+def enc_opt(v, f):
+    return "None" if v is None else "(Some %s)" % f(v)
+
+
+def enc_env(free, meas):
+    fp = coq.coq_list(sorted(free.items()), lambda kv: "(%d, mkF %s %s)" % (NAME_IDS[kv[0]], enc_opt(kv[1][0], enc_value), enc_opt(kv[1][1], enc_value)))
+    st = coq.coq_list([(int(k), v) for k, v in sorted(meas.items()) if v is not None], lambda kv: "(%d, %s)" % (kv[0], coq.coq_list(kv[1], coq.coq_float)))
+    return fp, st
+
+
+def enc_oracle(oracle):
+    t1 = sorted({(f, a[0], v) for f, a, v in oracle if len(a) == 1})
+    t2 = sorted({(f, a[0], a[1], v) for f, a, v in oracle if len(a) == 2})
+    return (coq.coq_list(t1, lambda e: "(%d, %s, %s)" % (e[0], coq.coq_float(e[1]), coq.coq_float(e[2]))),
+            coq.coq_list(t2, lambda e: "(%d, %s, %s, %s)" % (e[0], coq.coq_float(e[1]), coq.coq_float(e[2]), coq.coq_float(e[3]))))
+
+
+def model_outcome(v):
+    """parsed Coq `res float` -> same shape as the implementation outcome"""
+    if v == "ParamErr":
+        return ("ParameterError",)
+    if v == "ShapeErr":
+        return ("ValueError",)
+    assert v[0] == "Ok", v
+    val = v[1]
+    if val[0] == "S":
+        return ("ok", float(val[1]))
+    return ("ok", [float(x) for x in val[1]])
+
+
+def has_miss(o):
+    return o[0] == "ok" and any(x == MISS for x in _flat(o[1]))
+
+
+COQ_HEAD = ("From Coq Require Import List Arith Bool PrimFloat.\nImport ListNotations.\n"
+            "From SFV Require Import C10.Model C10.FloatInst.\n")
+
+
+def model_expr_cases(ctx, name, cases):
+    """Evaluate ev / deps / frees / ev(subst) of the model on the cases.  Returns list of
+    (outcome, deps, frees, outcome_after_subst) or None if coqc failed (obligation recorded)."""
+    out = []
+    for si in range(0, len(cases), 250):
+        sh = cases[si:si + 250]
+        items = []
+        for c in sh:
+            oracle = []
+            meas = {int(k): v for k, v in c["meas"].items()}
+            ref_eval(c["tree"], c["free"], meas, oracle)
+            t1, t2 = enc_oracle(oracle)
+            fp, st = enc_env(c["free"], meas)
+            items.append("(%s, %s, %s, %s, %s)" % (t1, t2, fp, st, enc_expr(c["tree"])))
+        text = (COQ_HEAD + "Definition cases : list (list (nat*float*float) * list (nat*float*float*float) * list (nat * fpar float) * list (nat * list float) * expr float) := [\n"
+                + ";\n".join(items) + "].\n"
+                "Eval vm_compute in map (fun c => match c with (t1, t2, fp, st, e) => (fev t1 t2 fp st e, deps e, frees e, fev t1 t2 [] [] (fsubst fp st e), sshape e) end) cases.\n")
+        ok, vals, raw = ctx.coq_eval("%s_%d" % (name, si // 250), text)
+        if not ok:
+            ctx.obligation("correspondence:%s:shard%d" % (name, si // 250), False, raw)
+            return None
+        out.extend(vals[0])
+    return out
+
+
+# ---------------------------------------------------------------------------------------
+# correspondence A: par_evaluate / par_regref_deps / Operation.measurement_deps vs the model
+
+def close_bc(a, b, tol=1e-8):
+    """close, or a scalar against an array of that scalar (sympy cancelled the array-valued atom)."""
+    if close(a, b, tol):
+        return True
+    if isinstance(a, list) != isinstance(b, list):
+        l, x = (a, b) if isinstance(a, list) else (b, a)
+        return all(close(y, x, tol) for y in l)
+    return False
+
+
+def expr_nontrivial(c):
+    ats = set(atoms(c["tree"]))
+    kinds = {k for k, _ in ats}
+    fl = free_lookup(c["free"])
+    unb = any((k == "free" and fl.get(a) is None) or (k == "meas" and c["meas"].get(str(a)) is None) for k, a in ats)
+    return ("free" in kinds and "meas" in kinds) or unb
+
+
+def expr_predicate(c):
+    """The property's own predicate on one expression case, evaluated on the implementation:
+    the symbolic expression evaluates to what the numerically substituted expression evaluates to, and
+    raises ParameterError iff an atom it (still) contains is unbound/unmeasured.
+    Returns None if fine, else (signature, what)."""
+    meas = {int(k): v for k, v in c["meas"].items()}
+    imp = impl_expr_case(c)
+    o = imp["outcome"]
+    ref = ref_eval(c["tree"], c["free"], meas)
+    fl = free_lookup(c["free"])
+    sub_tree = subst(c["tree"], fl, meas)
+    # the same expression with numbers substituted for every bound atom, evaluated by the implementation
+    imp_sub = impl_expr_case({"tree": sub_tree, "free": {}, "meas": {}})
+    os_ = imp_sub["outcome"]
+    simplified = imp["atoms"] is not None and imp["atoms"] != set(atoms(c["tree"]))
+    cl = close_bc if simplified else close
+    if o[0] == "ok" and os_[0] == "ok" and not cl(o[1], os_[1]):
+        return ("expr:value", "par_evaluate of the symbolic expression gives %r, of the substituted expression %r" % (o[1], os_[1]))
+    if o[0] == "ok" and ref[0] == "ok" and not cl(o[1], ref[1]):
+        return ("expr:value", "par_evaluate gives %r, the expression over the substituted numbers is %r" % (o[1], ref[1]))
+    if imp["atoms"] is not None:
+        unb = [(k, a) for k, a in imp["atoms"] if (k == "free" and fl.get(a) is None) or (k == "meas" and meas.get(a) is None)]
+        if unb and o[0] != "ParameterError":
+            return ("expr:silent-default", "atoms %r are unbound/unmeasured but par_evaluate returned %r instead of raising ParameterError" % (unb, o))
+        if not unb and o[0] == "ParameterError":
+            return ("expr:spurious-parameter-error", "every atom is bound/measured but par_evaluate raised ParameterError")
+        want = sorted({a for k, a in imp["atoms"] if k == "meas"})
+        if imp["deps"] != want or imp["op_deps"] != want:
+            return ("expr:deps", "par_regref_deps %r / Operation.measurement_deps %r differ from the measured atoms %r of the expression" % (imp["deps"], imp["op_deps"], want))
+    if o[0] == "ok" and imp.get("seq_ok") is False:
+        return ("expr:sequence", "par_evaluate on a sequence differs from par_evaluate on the single parameter")
+    return None
+
+
+def corr_expr(ctx):
+    rng = ctx.rng
+    n = ctx.budget(500, 5000)
+    cases = [gen_expr_case(rng, malformed=(i % 12 == 0)) for i in range(n)]
+    model = model_expr_cases(ctx, "cases_expr", cases)
+    if model is None:
+        return
+    ctx.traces += len(cases)
+    n_bad = 0
+    for c, m in zip(cases, model):
+        mo, mdeps, mfrees, mo_sub = model_outcome(m[0]), sorted(set(m[1])), sorted(set(m[2])), model_outcome(m[3])
+        imp = impl_expr_case(c)
+        o = imp["outcome"]
+        bucket = "expr-" + o[0]
+        if (m[4] is None) != (static_shape(c["tree"]) is None):
+            ctx.obligation("correspondence:model-sshape", False, "model sshape and harness static_shape differ on %r" % (c,))
+        if m[4] is None or imp["deps"] is None:
+            # construction-time shape error: the expression does not exist, nothing to evaluate
+            ctx.case({"kind": "expr", "tree": c["tree"], "impl": list(o)[:1]}, nontrivial=False, bucket="expr-build-" + o[0])
+            if not (m[4] is None and imp["deps"] is None and o[0] == "ValueError"):
+                ctx.disagreement("corr:expr:build", "model says construction %s, implementation %r" % ("fails" if m[4] is None else "succeeds", o),
+                                 {"check": "expr", "case": c, "impl": list(o), "model": repr(m[4])})
+            continue
+        ctx.case({"kind": "expr", "tree": c["tree"], "free": c["free"], "meas": c["meas"], "impl": list(o)[:1]}, nontrivial=expr_nontrivial(c), bucket=bucket)
+        if has_miss(mo):
+            ctx.obligation("correspondence:function-table", False, "model reached a function argument the harness did not tabulate: %r" % (c,))
+            return
+        # the model's own consequence of C10_subst_eval, re-checked numerically on every case
+        if mo != mo_sub and not (mo[0] == "ok" and mo_sub[0] == "ok" and close(mo[1], mo_sub[1], 0)):
+            ctx.obligation("correspondence:model-subst", False, "model ev and ev-after-subst differ on %r" % (c,))
+        tree_meas = sorted({a for k, a in atoms(c["tree"]) if k == "meas"})
+        simplified = imp["atoms"] is not None and imp["atoms"] != set(atoms(c["tree"]))
+        agree = (mo[0] == o[0]) and (mo[0] != "ok" or (close_bc if simplified else close)(mo[1], o[1]))
+        if simplified and not agree and mo[0] == "ParameterError" and o[0] == "ok":
+            # sympy cancelled the unbound atom (a - a, 0*a): nothing defaulted, nothing to compare
+            ctx.hist["expr-simplified-away"] = ctx.hist.get("expr-simplified-away", 0) + 1
+            continue
+        deps_agree = imp["deps"] is None or simplified or (imp["deps"] == mdeps == tree_meas and imp["op_deps"] == mdeps)
+        if agree and deps_agree:
+            continue
+        n_bad += 1
+        data = {"check": "expr", "case": c, "impl": list(o), "model": list(mo), "impl_deps": imp["deps"], "model_deps": mdeps}
+        bad = expr_predicate(c)
+        if bad:
+            ctx.counterexample(bad[0], bad[1], data)
+        else:
+            ctx.disagreement("corr:expr:" + (o[0] if not agree else "deps"), "model %r deps %r vs implementation %r deps %r" % (mo, mdeps, o, imp["deps"]), data)
+        if n_bad > 20:
+            break
+
+
+def correspondence(ctx):
+    corr_expr(ctx)
+    for fn in (globals().get("corr_history"), globals().get("corr_world"), globals().get("corr_decomp")):
+        if fn:
+            fn(ctx)
+
+
+def search(ctx):
+    for fn in (globals().get("search_corpus"), globals().get("search_expr"), globals().get("search_programs"), globals().get("search_cross"), globals().get("search_decomp")):
+        if fn:
+            fn(ctx)
+
+
+def replay(ctx, data):
+    d = data["data"]
+    chk = d.get("check")
+    if chk == "expr":
+        bad = expr_predicate(d["case"])
+        print("expression case:", d["case"])
+        print("implementation:", impl_expr_case(d["case"])["outcome"], " predicate:", bad)
+        return bad is not None
+    fn = globals().get("replay_" + str(chk))
+    if fn:
+        return fn(ctx, d)
+    print("unknown replay kind", chk)
+    return False
+
+
+# ---------------------------------------------------------------------------------------
+# search S1: symbolic program vs the program with the numbers substituted
+
+# op -> (modes, [param kinds]); kinds: r small real, a angle, x displacement-like, t transmissivity in [0,1], n >= 0
+SYM_OPS = {
+    "Dgate": (1, ["r", "a"]), "Xgate": (1, ["x"]), "Zgate": (1, ["x"]), "Sgate": (1, ["r", "a"]), "Rgate": (1, ["a"]),
+    "Pgate": (1, ["x"]), "BSgate": (2, ["a", "a"]), "MZgate": (2, ["a", "a"]), "sMZgate": (2, ["a", "a"]),
+    "S2gate": (2, ["r", "a"]), "CXgate": (2, ["x"]), "CZgate": (2, ["x"]),
+    "LossChannel": (1, ["t"]), "ThermalLossChannel": (1, ["t", "n"]),
+}
+SYM_PREPS = {"Coherent": (1, ["r", "a"]), "Squeezed": (1, ["r", "a"]), "DisplacedSqueezed": (1, ["r", "a", "r", "a"]),
+             "Thermal": (1, ["n"]), "Vacuum": (1, [])}
+GATES_WITH_H = ("Dgate", "Xgate", "Zgate", "Sgate", "Rgate", "Pgate", "BSgate", "MZgate", "sMZgate", "S2gate", "CXgate", "CZgate")
+
+
+def gen_param_tree(rng, kind, pool, free, store):
+    """A tree whose value (under free/store) respects the domain of the parameter kind."""
+    for _ in range(30):
+        if not pool or rng.random() < 0.25:
+            t = gen_const(rng, False)
+        else:
+            t = gen_tree(rng, rng.randint(0, 3), pool, rng.random() < 0.3, 0)
+        if kind == "t":
+            t = ["pow", ["fn", "cos", t], 2]
+        elif kind == "n":
+            t = ["pow", t, 2]
+        elif kind == "r":
+            t = ["mul", 0.6, ["fn", "tanh", t]] if isinstance(t, list) else max(-0.6, min(0.6, t))
+        try:
+            v = tree_eval(t, free, store)
+        except (RefParamError, ShapeError):
+            return t  # error stream: keep as is
+        except (OverflowError, ZeroDivisionError, ValueError):
+            continue
+        if isinstance(v, float) and math.isfinite(v) and abs(v) < 3.0:
+            if kind == "n" and v > 1.5:
+                continue
+            return t
+    return 0.25
+
+
+def gen_prog_spec(rng, err=False, segs=None, cross=None):
+    n = rng.randint(2, 4)
+    names = rng.sample(NAMES, rng.randint(1, 3))
+    bind, defaults = {}, {}
+    for nm in names:
+        v = round(rng.uniform(-1.5, 1.5), 3) if rng.random() < 0.7 else rng.choice(DY)
+        (bind if rng.random() < 0.75 else defaults)[nm] = v
+    free = dict(defaults, **bind)
+    ncmds = rng.randint(3, 9)
+    nseg = segs if segs is not None else rng.choice([1, 1, 1, 2, 2, 3])
+    cuts = sorted(rng.sample(range(1, ncmds), min(nseg - 1, ncmds - 1))) if nseg > 1 else []
+    store = {}      # mode -> [select value] : latest outcome in program order
+    store_seg = {}  # mode -> segment index of that outcome
+    cmds, seg_of = [], []
+    seg = 0
+    unbound_name = None
+    for i in range(ncmds):
+        if cuts and i == cuts[0]:
+            cuts.pop(0)
+            seg += 1
+        # atoms that may be used here: free names + measured modes (cross-segment use only if allowed)
+        meas_ok = [m for m in store if cross is not False or store_seg[m] == seg]
+        if cross is True and seg > 0:
+            older = [m for m in store if store_seg[m] < seg]
+            meas_ok = older or meas_ok
+        pool = [["free", nm] for nm in names] + [["meas", m] for m in meas_ok] * 2
+        r = rng.random()
+        if r < 0.22:
+            m = rng.randrange(n)
+            sel = round(rng.uniform(-1.2, 1.2), 3)
+            phi = gen_param_tree(rng, "a", [p for p in pool if p[0] == "free"], free, store) if rng.random() < 0.4 else rng.choice([0.0, round(math.pi / 2, 6), 0.4])
+            cmds.append(["MeasureHomodyne", [phi], [m], False, sel])
+            store[m] = [sel]
+            store_seg[m] = seg
+        elif r < 0.34 and store:
+            # re-prepare a measured mode
+            m = rng.choice(sorted(store))
+            name = rng.choice(sorted(SYM_PREPS))
+            cmds.append([name, [gen_param_tree(rng, k, pool, free, store) for k in SYM_PREPS[name][1]], [m], False, None])
+        else:
+            name = rng.choice(sorted(SYM_OPS))
+            nm_, kinds = SYM_OPS[name]
+            modes = rng.sample(range(n), nm_)
+            p = pool
+            if err and rng.random() < 0.4:
+                # error stream: an unmeasured mode's outcome, or a name that is never bound
+                unm = [m for m in range(n) if m not in store]
+                if unm and rng.random() < 0.6:
+                    p = [["meas", rng.choice(unm)]]
+                else:
+                    unbound_name = unbound_name or rng.choice([x for x in NAMES if x not in free] or ["d"])
+                    if unbound_name in free:
+                        free.pop(unbound_name)
+                        bind.pop(unbound_name, None)
+                        defaults.pop(unbound_name, None)
+                    p = [["free", unbound_name]]
+            trees = [gen_param_tree(rng, k, p, free, store) for k in kinds]
+            cmds.append([name, trees, modes, name in GATES_WITH_H and rng.random() < 0.25, None])
+        seg_of.append(seg)
+    nsegs = seg + 1
+    out = [[c for c, s in zip(cmds, seg_of) if s == k] for k in range(nsegs)]
+    spec = {"n": n, "segs": out, "bind": bind, "defaults": defaults}
+    if rng.random() < 0.3:
+        spec["optimize"] = True
+    if rng.random() < 0.2:
+        spec["precompile"] = "gaussian"
+    if rng.random() < 0.2:
+        spec["bind_early"] = True
+    if nsegs > 1 and rng.random() < 0.4:
+        spec["as_list"] = True
+    return spec
+
+
+def spec_features(spec):
+    """Syntactic facts used for signatures and the non-triviality rule."""
+    f = {"segments": len(spec["segs"]), "cross_segment_use": False, "remeasured_use": False, "shared_symbol": False,
+         "optimize_measured_pair": False, "uses_measured": False}
+    last_seg, count = {}, {}
+    seen_syms = {}
+    for si, seg in enumerate(spec["segs"]):
+        prev_by_mode = {}
+        for c in seg:
+            ats = [a for t in c[1] for a in atoms(t)]
+            for k, a in ats:
+                seen_syms.setdefault((k, a), set()).add(si)
+                if k == "meas":
+                    f["uses_measured"] = True
+                    if si > 0 and last_seg and last_seg.get(a, -1) < si:
+                        # a later segment uses a mode's outcome that was not measured in this segment,
+                        # after an earlier segment measured something (whatever mode)
+                        f["cross_segment_use"] = True
+                    if count.get(a, 0) >= 2:
+                        f["remeasured_use"] = True
+            if c[0] in MEAS_OPS:
+                for m in c[2]:
+                    last_seg[m] = si
+                    count[m] = count.get(m, 0) + 1
+            # adjacent single-mode gates of one family on one mode, one of them with a measured parameter
+            if len(c[2]) == 1:
+                m = c[2][0]
+                p = prev_by_mode.get(m)
+                if p is not None and p[0] == c[0] and c[0] in GATES_WITH_H and any(k == "meas" for t in (p[1] + c[1]) for k, _ in atoms(t)):
+                    f["optimize_measured_pair"] = True
+            for m in c[2]:
+                prev_by_mode[m] = c
+    f["shared_symbol"] = any(len(v) > 1 for v in seen_syms.values())
+    return f
+
+
+class _unshared_symbols:
+    """Diagnosis only: make parameter symbols of different Programs distinct sympy objects that do not
+    compare equal (uncached construction; identity of the RegRef / of the FreeParameter is part of the
+    hashable content), i.e. what the library would do if symbols were not shared through sympy's caches."""
+
+    def __enter__(self):
+        import sympy
+        M, F = sfpar.MeasuredParameter, sfpar.FreeParameter
+        self.saved = (M.__dict__.get("__new__"), M.__dict__.get("_hashable_content"), F.__dict__.get("__new__"), F.__dict__.get("_hashable_content"))
+
+        def m_new(cls, regref):
+            obj = sympy.Symbol.__xnew__(cls, "q" + str(regref.ind))
+            obj.regref = regref
+            return obj
+
+        def f_new(cls, name):
+            return sympy.Symbol.__xnew__(cls, name)
+
+        M.__new__ = staticmethod(m_new)
+        M._hashable_content = lambda self: sympy.Symbol._hashable_content(self) + (id(self.regref),)
+        F.__new__ = staticmethod(f_new)
+        F._hashable_content = lambda self: sympy.Symbol._hashable_content(self) + (id(self),)
+        return self
+
+    def __exit__(self, *a):
+        M, F = sfpar.MeasuredParameter, sfpar.FreeParameter
+        for cls, (nw, hc) in ((M, self.saved[:2]), (F, self.saved[2:])):
+            for name, v in (("__new__", nw), ("_hashable_content", hc)):
+                if v is None:
+                    delattr(cls, name)
+                else:
+                    setattr(cls, name, v)
+        import sympy.core.cache as sc
+        sc.clear_cache()
+
+
+def run_spec_isolated(spec):
+    """Symbolic run with parameter symbols that are not shared between Program objects (diagnosis only)."""
+    with _unshared_symbols():
+        return run_spec(spec, True)
+
+
+def prog_predicate(spec):
+    """None if the symbolic program behaves like the substituted one, else (signature, what)."""
+    a = run_spec(spec, True)
+    b = run_spec(spec, False)
+    if same_result(a, b):
+        return None
+    f = spec_features(spec)
+    sym = "raises %s (%s)" % (a["error"], a.get("detail", "")[:120]) if a["error"] else "runs"
+    sub = "raises %s (%s)" % (b["error"], b.get("detail", "")[:120]) if b["error"] else "runs"
+    what = "symbolic program %s, substituted program %s" % (sym, sub) + ("" if (a["error"] or b["error"]) else " but the final states differ")
+    if f["shared_symbol"] and f["segments"] > 1:
+        iso = run_spec_isolated(spec)
+        if same_result(iso, b):
+            return ("cache:symbol-shared-between-programs", what + "; with parameter symbols that are not shared between Program objects the two agree")
+    if spec.get("precompile") and f["uses_measured"] and a["error"] == "AttributeError":
+        return ("compile:compiled-program-with-measured-parameter", what + " [a compiled Program holding a MeasuredParameter is compiled again by the engine: _linked_copy deep-copies Program.source]")
+    if f["cross_segment_use"]:
+        return ("run:cross-segment-measured-value", what + " [a later segment uses a value measured in an earlier segment]")
+    if spec.get("optimize") and f["optimize_measured_pair"]:
+        return ("optimize:measured-parameter-gates-merged", what + " [optimize=True, two adjacent gates of one family on one mode with a measured parameter]")
+    kind = a["error"] or ("state" if not b["error"] else "no-error")
+    return ("program:" + kind, what)
+
+
+def prog_nontrivial(spec, f):
+    return f["remeasured_use"] or f["segments"] > 1 or any(k == "meas" for s in spec["segs"] for c in s for t in c[1] for k, _ in atoms(t))
+
+
+def search_corpus(ctx):
+    """Replay the recorded findings first: each still-failing one is reported under the signature the
+    predicate computes now (so a fixed defect simply stops being reported)."""
+    import glob
+    import json
+    import os
+    for path in sorted(glob.glob(os.path.join(coq.VERIF, "corpus", "C10-*.json"))):
+        d = json.load(open(path))["data"]
+        bad = None
+        if d.get("check") == "prog":
+            bad = prog_predicate(d["spec"])
+        elif d.get("check") == "expr":
+            bad = expr_predicate(d["case"])
+        elif d.get("check") in ("cross", "decomp", "history"):
+            fn = globals().get(d["check"] + "_predicate")
+            bad = fn(d) if fn else None
+        ctx.case({"kind": "corpus", "file": os.path.basename(path)}, nontrivial=True, bucket="corpus")
+        if bad:
+            ctx.counterexample(bad[0], bad[1], d)
+
+
+def search_programs(ctx):
+    rng = ctx.rng
+    n = ctx.budget(150, 1500)
+    for i in range(n):
+        r = rng.random()
+        if r < 0.12:
+            spec = gen_prog_spec(rng, err=True)
+        elif r < 0.24:
+            spec = gen_prog_spec(rng, segs=rng.choice([2, 3]), cross=False)
+        else:
+            spec = gen_prog_spec(rng)
+        f = spec_features(spec)
+        bad = prog_predicate(spec)
+        ctx.case({"kind": "prog", "spec": spec}, nontrivial=prog_nontrivial(spec, f),
+                 bucket="prog-%dseg%s%s" % (f["segments"], "-opt" if spec.get("optimize") else "", "-cross" if f["cross_segment_use"] else ""))
+        if bad:
+            ctx.counterexample(bad[0], bad[1], {"check": "prog", "spec": spec})
+
+
+def replay_prog(ctx, d):
+    spec = d["spec"]
+    a, b = run_spec(spec, True), run_spec(spec, False)
+    print("symbolic   :", a.get("error"), a.get("detail", ""), "" if a["error"] else np.round(a["state"][0], 5))
+    print("substituted:", b.get("error"), b.get("detail", ""), "" if b["error"] else np.round(b["state"][0], 5))
+    bad = prog_predicate(spec)
+    print("predicate:", bad)
+    return bad is not None
